@@ -38,6 +38,16 @@ impl VmInvoke for Fwd {
                 let v: ScryptoValue = scrypto_decode(&rtn).map_err(dec)?;
                 Ok(IndexedScryptoValue::from_typed(&(v, own)))
             }
+            // same for a proof; the proof is dropped afterwards (a proof that crossed a barrier is restricted and
+            // cannot be handed back to the transaction's auth zone)
+            "fwd_proof" => {
+                let (own, method, args): (Own, String, Vec<u8>) = input.as_typed().map_err(dec)?;
+                let rtn = api.call_method(own.as_node_id(), &method, args)?;
+                let v: ScryptoValue = scrypto_decode(&rtn).map_err(dec)?;
+                let proof = Proof(own);
+                radix_native_sdk::resource::NativeProof::drop(proof, api)?;
+                Ok(IndexedScryptoValue::from_typed(&(v,)))
+            }
             "new_component" => {
                 let metadata = Metadata::create(api)?;
                 let access_rules = RoleAssignment::create(OwnerRole::Updatable(AccessRule::AllowAll), indexmap!(), api)?;
@@ -97,6 +107,13 @@ pub struct W11 {
     pub vault_f: InternalAddress,
     pub vault_nf: InternalAddress,
     pub vault_rc: InternalAddress,
+    /// stake unit / claim NFT of the own validator
+    pub own_stake_unit: ResourceAddress,
+    pub own_claim_nft: ResourceAddress,
+    /// current consensus round in the base state
+    pub round: u64,
+    /// blobs attached to every transaction (the code of the tiny WASM package)
+    pub blobs: IndexMap<Hash, Vec<u8>>,
     /// a key-value store node (internal, not a vault)
     pub kv_store: InternalAddress,
     /// proofs a user could hold: signatures of A and B, the owner badges of the two validators
@@ -258,7 +275,7 @@ pub fn build_w11(sim: &mut FSim) -> W11 {
     let wat_pkg = r.expect_commit(true).new_package_addresses()[0];
     let fwd_pkg = sim.publish_native_package(
         FWD_CODE_ID,
-        PackageDefinition::new_functions_only_test_definition(FWD_BP, vec![("fwd", "fwd", false), ("new_component", "new_component", false)]),
+        PackageDefinition::new_functions_only_test_definition(FWD_BP, vec![("fwd", "fwd", false), ("fwd_proof", "fwd_proof", false), ("new_component", "new_component", false)]),
     );
     let r = ok(sim.execute_manifest(mb().call_function(fwd_pkg, FWD_BP, "new_component", manifest_args!()).build(), vec![]), "royalty component");
     let royalty_comp = r.expect_commit(true).new_component_addresses()[0];
@@ -273,6 +290,11 @@ pub fn build_w11(sim: &mut FSim) -> W11 {
         .map(ia)
         .unwrap_or_else(|| mc_core::machinery_error("no key-value store in the base state"));
 
+    let vinfo = sim.get_validator_info(own_validator);
+    let (own_stake_unit, own_claim_nft) = (vinfo.stake_unit_resource, vinfo.claim_nft);
+    let round = sim.get_consensus_manager_state().round.number();
+    let code = wat2wasm(MINI_WAT);
+    let blobs: IndexMap<Hash, Vec<u8>> = indexmap!(hash(&code) => code);
     let user_proofs = vec![w.a.sig.clone(), w.b.sig.clone(), validator_badge(own_validator), validator_badge(x.validator)];
     let system_proofs = vec![system_execution(SystemExecution::Validator), system_execution(SystemExecution::Protocol)];
     W11 {
@@ -295,6 +317,10 @@ pub fn build_w11(sim: &mut FSim) -> W11 {
         vault_f,
         vault_nf,
         vault_rc,
+        own_stake_unit,
+        own_claim_nft,
+        round,
+        blobs,
         kv_store,
         user_proofs,
         system_proofs,
